@@ -36,6 +36,20 @@ def tie_violations(ck, res, want_kinds=("parse", "fail", "baseline", "stripped")
     return n
 
 
+def first_table_diff(impl, model):
+    """first differing entry of two `lrtab` renderings: (state, column, impl entry, model entry) or a shape note"""
+    a, b = impl.split(" ; "), model.split(" ; ")
+    if a[0] != b[0]:
+        return "table shape differs: `%s` vs `%s`" % (a[0], b[0])
+    for s, (ra, rb) in enumerate(zip(a[1:], b[1:])):
+        if ra != rb:
+            xa, xb = ra.split(), rb.split()
+            for k, (ea, eb) in enumerate(zip(xa, xb)):
+                if ea != eb:
+                    return "state %d, column %d (0 = canRecover flag, then one column per terminal type, `/`, then gotos): generated `%s`, rule gives `%s`" % (s, k, ea, eb)
+    return "row count differs"
+
+
 def verdict(o):
     return o.split(" | ")[0].split()[0]
 
